@@ -80,6 +80,7 @@ type pathState struct {
 	assumedAscii map[int]bool
 	lockDepth    int
 	trees        []value
+	track        *tracker
 }
 
 type obsRec struct {
